@@ -558,6 +558,12 @@ func compositeConsts(v ssa.Value) string {
 // A conjunction of literals is rendered as such ("!(a) && (b)"), anything else as a truth table over the
 // sorted atoms.
 func guardOf(s *symb, blk *ssa.BasicBlock, repl map[string]string) string {
+	g, _ := guardOfFull(s, blk, repl)
+	return g
+}
+
+// guardOfFull also returns the atoms (branch conditions) the reaching condition really depends on.
+func guardOfFull(s *symb, blk *ssa.BasicBlock, repl map[string]string) (string, []string) {
 	atomIdx := map[string]int{}
 	var atoms []string
 	tooMany := false
@@ -641,7 +647,7 @@ func guardOf(s *symb, blk *ssa.BasicBlock, repl map[string]string) string {
 	}
 	f := reach(blk, 0)
 	if tooMany {
-		return guardOfDom(s, blk, repl)
+		return guardOfDom(s, blk, repl), nil
 	}
 	n := uint(len(atoms))
 	truth := make([]bool, 1<<n)
@@ -651,7 +657,7 @@ func guardOf(s *symb, blk *ssa.BasicBlock, repl map[string]string) string {
 		any = any || truth[asg]
 	}
 	if !any {
-		return "false"
+		return "false", nil
 	}
 	implied := map[int]bool{}
 	for i := range atoms {
@@ -693,7 +699,12 @@ func guardOf(s *symb, blk *ssa.BasicBlock, repl map[string]string) string {
 			}
 		}
 		sort.Strings(parts)
-		return strings.Join(parts, " && ")
+		var used []string
+		for i := range implied {
+			used = append(used, atoms[i])
+		}
+		sort.Strings(used)
+		return strings.Join(parts, " && "), used
 	}
 	// drop atoms the function does not depend on, then sorted atoms + truth table
 	var dep []int
@@ -732,7 +743,11 @@ func guardOf(s *symb, blk *ssa.BasicBlock, repl map[string]string) string {
 			sb.WriteByte('0')
 		}
 	}
-	return sb.String()
+	var used []string
+	for _, i := range dep {
+		used = append(used, atoms[i])
+	}
+	return sb.String(), used
 }
 
 func guardOfDom(s *symb, blk *ssa.BasicBlock, repl map[string]string) string {
